@@ -21,10 +21,13 @@ BOOLS = ['TRUE', 'FALSE']
 ERRS = ['#NULL!', '#DIV/0!', '#VALUE!', '#REF!', '#NAME?', '#NUM!', '#N/A']
 REFS = ['A1', '$A$1', 'A$1', '$A1', 'AB12', 'Sheet2!A1', 'Sheet2!$A$1',
         "'My Sheet'!A1", "'It''s'!B2", 'A1:B2', '$A$1:$B$2', 'Sheet2!A1:B2',
-        "'My Sheet'!A1:B2", 'A:A', '1:1']
+        "'My Sheet'!A1:B2", 'A:A', '1:1', "'@home'!$B$2"]
 STRS = ['', 'a', 'a b', 'A1', '1', '""'.replace('""', '"'), ',', ')', ': ',
-        '#N/A', "'", '{;}', '%', '[x]', '=1+1', 'é']
-STR_ALPHABET = 'aA1E "\'!#%(),:;[]{}+-='
+        '#N/A', "'", '{;}', '%', '[x]', '=1+1', 'é',
+        # what the tokenizer / parser treat specially elsewhere
+        '@', '@home', 'x:OFFSET', 'use A1:INDEX(B:B,3)', ':INDEX', 'TRUE',
+        '#NAME?', '1E+3']
+STR_ALPHABET = 'aA1E "\'!#%(),:;[]{}+-=@'
 
 FULL_LEAVES = ([('num', x) for x in NUMS] + [('bool', x) for x in BOOLS] +
                [('err', x) for x in ERRS] + [('ref', x) for x in REFS] +
